@@ -124,6 +124,47 @@ def _assembly(n, k, order, rnd, tmp, sigmoid=True, dup=True):
     return {"kind": "assembly", "n": n, "k": k, "order": order, "metric": mt, "events": events, "chunks": _real_chunks(n, k)}
 
 
+def _cli_file_order(tmp, rnd):
+    """the real calculate_distance_matrix command with several sample files: entry (i, j) is the metric of the i-th and j-th sample
+    in the order the files were GIVEN (the order every later step of the pipeline uses), whatever the files are called"""
+    import sys
+    from batchie.cli import calculate_distance_matrix as cm
+    from batchie.core import ThetaHolder
+    from batchie.data import Screen, ExperimentSpace
+    from batchie.models.sparse_combo import SparseDrugComboMCMCSample
+    scr = Screen(treatment_names=np.array([["a", "b"], ["a", "ctl"], ["b", "c"]], dtype=str), treatment_doses=np.array([[1.0, 1.0], [1.0, 0.0], [1.0, 2.0]]),
+                 sample_names=np.array(["s0", "s1", "s0"], dtype=str), plate_names=np.array(["p", "p", "q"], dtype=str), control_treatment_name="ctl")
+    sfn = os.path.join(tmp, "cli_screen.h5")
+    scr.save_h5(sfn)
+    sp = ExperimentSpace.from_screen(scr)
+    g = np.random.default_rng(rnd.randrange(1 << 30))
+    holders, files = [], []
+    for name, k in (("thetas_10.h5", 2), ("thetas_2.h5", 3), ("thetas_1.h5", 1)):          # given order is not the order of the names
+        h = ThetaHolder(n_thetas=k)
+        for _ in range(k):
+            h.add_theta(SparseDrugComboMCMCSample(W=g.normal(size=(sp.n_unique_samples, 1)), W0=g.normal(size=sp.n_unique_samples), V2=g.normal(size=(sp.n_unique_treatments, 1)),
+                                                  V1=g.normal(size=(sp.n_unique_treatments, 1)), V0=g.normal(size=sp.n_unique_treatments), alpha=float(g.normal()), precision=1.0))
+        fn = os.path.join(tmp, name)
+        h.save_h5(fn)
+        holders.append(h)
+        files.append(fn)
+    out = os.path.join(tmp, "cli_dist.h5")
+    old = sys.argv
+    sys.argv = ["x", "--data", sfn, "--thetas"] + files + ["--distance-metric", "MSEDistance", "--chunk-index", "0", "--n-chunks", "1", "--output", out]
+    try:
+        st, r = outcome(cm.main)
+    finally:
+        sys.argv = old
+    if st != "ok":
+        return "calculate_distance_matrix command raised " + r
+    got = DC.ChunkedDistanceMatrix.load(out).to_dense()
+    pooled = ThetaHolder.concat(holders)
+    want = DC.calculate_pairwise_distance_matrix_on_predictions(pooled, MSEDistance(), scr, 0, 1).to_dense()
+    if got.shape != want.shape or np.ascontiguousarray(got).tobytes() != np.ascontiguousarray(want).tobytes():
+        return "calculate_distance_matrix on files given as %s: the matrix is not the one of the samples in the given order" % [os.path.basename(f) for f in files]
+    return None
+
+
 def _metric_event(rnd, sigmoid, m):
     intern = Interner()
     a = np.array([rnd.uniform(-6, 6) * rnd.choice([1, 1e-3, 1e3]) for _ in range(m)])
@@ -194,6 +235,9 @@ def run(ctx):
             traces.append({"kind": "chunks", "n": n, "k": k, "chunks": _real_chunks(n, k)})
         for _ in range(60 if ctx.quick else 400):
             traces.append(_metric_event(rnd, rnd.random() < 0.7, rnd.randint(1, 40)))
+        msg = _cli_file_order(tmp, rnd)
+        if msg:
+            ctx.violation(msg, {"kind": "cli-file-order"})
     finally:
         shutil.rmtree(tmp, ignore_errors=True)
     _decide(ctx, tlc, traces)
